@@ -178,6 +178,19 @@ func runCheck(repo, prop, tier string) int {
 			}
 			keys = append(keys, k)
 		}
+		for _, k := range w.cons.FuncOrd {
+			if fc := w.cons.Funcs[k]; fc != nil && !fc.Extern && fc.mentions("C14") {
+				dup := false
+				for _, k2 := range keys {
+					if k2 == k {
+						dup = true
+					}
+				}
+				if !dup {
+					keys = append(keys, k)
+				}
+			}
+		}
 		sort.Strings(keys)
 	}
 	for _, key := range keys {
@@ -237,7 +250,9 @@ func runCheck(repo, prop, tier string) int {
 		funcs = append(funcs, vc.name)
 		for _, o := range vc.obls {
 			if lockMode {
-				if o.Kind == "lock" {
+				// the lock discipline, the frames (no write to shared state that no guard covers) and
+				// whatever a contract files under C14 explicitly (ownership established by constructors)
+				if o.Kind == "lock" || o.Kind == "frame" || hasProp(o.Props, "C14") {
 					items = append(items, vcObl{vc, o})
 				}
 				continue
